@@ -152,6 +152,105 @@ def judge(ncomp, ntop, top_clauses, sub):
     return txt, None
 
 
+GRID_HEADER = """
+connector Pin Real v; flow Real i; end Pin;
+model Comp Pin p; end Comp;
+"""
+GRID_CASES = [
+    ("Pin grid[2,2]; Comp a; Comp b;", [(("grid", (1, 1)), ("a.p", ())), (("grid", (1, 2)), ("b.p", ()))]),
+    ("Pin grid[2,2];", [(("grid", (1, 1)), ("grid", (1, 2))), (("grid", (2, 1)), ("grid", (2, 2)))]),
+    ("Pin grid[2,3]; Comp c;", [(("grid", (1, 2)), ("grid", (2, 1))), (("grid", (2, 1)), ("c.p", ())), (("grid", (1, 3)), ("grid", (2, 3)))]),
+    ("Pin v[3];", [(("v", (1,)), ("v", (2,))), (("v", (2,)), ("v", (3,)))]),
+    ("Comp rs[3]; Comp a;", [(("rs.p", (1,)), ("rs.p", (2,))), (("rs.p", (3,)), ("a.p", ()))]),
+]
+
+
+def judge_grid(decl, clauses):
+    """elements of connector arrays: compare flow sums / potential equalities of the CONNECTED elements (rank over element variables)"""
+    import pymoca.ast as ast
+    import pymoca.parser
+    from pymoca.tree import flatten
+
+    def txt_ref(n, idx):
+        if not idx:
+            return n
+        if "." in n:                       # pin of a component array: rs[k].p
+            head, tail = n.split(".", 1)
+            return "%s[%s].%s" % (head, ",".join(map(str, idx)), tail)
+        return "%s[%s]" % (n, ",".join(map(str, idx)))
+    txt = GRID_HEADER + "model Top " + decl + " equation " + " ".join("connect(%s, %s);" % (txt_ref(*l), txt_ref(*r)) for l, r in clauses) + " end Top;\n"
+    tree = pymoca.parser.parse(txt)
+    flat = flatten(tree, ast.ComponentRef(name="Top")).classes["Top"]
+    index = {}
+
+    def col(name, idx):
+        return index.setdefault((name, tuple(idx)), len(index))
+
+    def lin(e):
+        if isinstance(e, ast.ComponentRef):
+            idx = [i.value for row in e.indices for i in row if i is not None and getattr(i, "value", None) is not None]
+            return {col(e.name, idx): 1.0}
+        if isinstance(e, ast.Symbol):
+            return {col(e.name, ()): 1.0}
+        if isinstance(e, ast.Primary):
+            if float(e.value) != 0:
+                raise ValueError("inhomogeneous")
+            return {}
+        if isinstance(e, ast.Expression):
+            args = [lin(a) for a in e.operands]
+            if e.operator == "-" and len(args) == 1:
+                return {k: -v for k, v in args[0].items()}
+            out = dict(args[0])
+            sg = 1.0 if e.operator == "+" else -1.0
+            for k, v in args[1].items():
+                out[k] = out.get(k, 0.0) + sg * v
+            return out
+        raise ValueError("unexpected term %r" % (e,))
+    E = []
+    for eq in flat.equations:
+        if isinstance(eq, ast.ConnectClause):
+            return txt, "connect clause left in the flat model"
+        l, r = lin(eq.left), lin(eq.right)
+        for k, v in r.items():
+            l[k] = l.get(k, 0.0) - v
+        E.append(l)
+    parent = {}
+
+    def find(x):
+        parent.setdefault(x, x)
+        while parent[x] != x:
+            x = parent[x]
+        return x
+    for (ln, li), (rn, ri) in clauses:
+        a, b = find((ln, li, "." in ln)), find((rn, ri, "." in rn))
+        if a != b:
+            parent[b] = a
+    sets = {}
+    for x in list(parent):
+        sets.setdefault(find(x), []).append(x)
+    R = []
+    for members in sets.values():
+        for m in members[1:]:
+            R.append({col(members[0][0] + ".v", members[0][1]): 1.0, col(m[0] + ".v", m[1]): -1.0})
+        R.append({col(m[0] + ".i", m[1]): (1.0 if m[2] else -1.0) for m in members})
+    # only the variables of connected elements are compared (unconnected array elements are outside the decided scope)
+    keep = sorted({k for row in R for k in row})
+    E = [row for row in E if any(k in keep for k in row)]
+    n = len(index)
+
+    def mat(rows):
+        M = np.zeros((len(rows), n))
+        for i, row in enumerate(rows):
+            for k, v in row.items():
+                M[i, k] = v
+        return [M[i] for i in range(len(rows))]
+    me, mr = mat(E), mat(R)
+    re_, rr, both = rank(me), rank(mr), rank(me + mr)
+    if not (re_ == rr == both):
+        return txt, "solution spaces differ for the connected array elements: rank(flat)=%d rank(reference)=%d rank(both)=%d" % (re_, rr, both)
+    return txt, None
+
+
 def cases(tier, seed):
     rng = np.random.RandomState(seed)
     # curated: chain, star, cycle, merge of separate sets, redundant, outside connectors, nested level
@@ -183,6 +282,16 @@ def main():
     payload = json.load(sys.stdin)
     tier, seed = payload.get("tier", "quick"), int(payload.get("seed", 0) or 0)
     failures, n, seen = [], 0, set()
+    for decl, gcl in GRID_CASES:
+        n += 1
+        seen.add(json.dumps([decl, gcl]))
+        try:
+            txt, bad = judge_grid(decl, gcl)
+        except BaseException as e:  # noqa
+            txt, bad = decl, "%s: %s" % (type(e).__name__, str(e)[:200])
+        if bad:
+            failures.append({"class": "graph", "input": {"model": txt, "flatten": "Top"}, "observed": bad,
+                             "expected": "flat equations with the solution space of the connection-set semantics"})
     for ncomp, ntop, clauses, sub in cases(tier, seed):
         n += 1
         seen.add(json.dumps([ncomp, ntop, clauses, sub]))
@@ -198,7 +307,7 @@ def main():
     if payload.get("mode") == "bounded":
         print(json.dumps({"performed": True, "cases": n, "distinct_nontrivial": len(seen), "failures": failures[:10],
                           "rule": "generated Modelica models (connector with 2 potential and 2 flow variables; 1-4 two-pin components; 0-2 top-level connectors; optionally a nested sub-model with its own connect clauses and "
-                                  "two outside connectors) with 8 curated graphs (chain, star, cycle, merge of separate sets, redundant, outside-only, nested) and random graphs of 1-7 clauses: flattened by the real code, "
+                                  "two outside connectors) with 8 curated graphs (chain, star, cycle, merge of separate sets, redundant, outside-only, nested) and random graphs of 1-7 clauses, plus 5 graphs over elements of 1-D / 2-D connector arrays and pins of component arrays: flattened by the real code, "
                                   "equations read as a homogeneous linear system and compared with the reference system by rank(flat)=rank(reference)=rank(both); distinct = distinct (sizes, clause list) tuples",
                           "bound": "%d graphs, <= 12 connectors, <= 12 clauses" % n}))
     else:
